@@ -60,6 +60,7 @@ def run(ctx) -> None:
            'operation carries the collected trials', 3)
   ctx.rule('R7', 'SuggestTrials answers with the worker\'s pending operation or with the operation it created in this call, '
            'never with a finished earlier one (its trials may meanwhile belong to someone else)', 2)
+  ctx.import_rules('C06', {'R1'}, 'R10', 'every operation SuggestTrials stores open is stored finished on every exit (or the same worker never gets trials again)')
   ctx.import_rules('C01', {'R1', 'R2'}, 'R8', 'a trial handed to a worker stays ACTIVE and its own on every path, failure paths included (no ACTIVE -> REQUESTED)')
   ctx.import_rules('C07', {'R6', 'R7', 'R8', 'R9'}, 'R6', 'fresh ids and sticky hand-out rest on the datastores: max_trial_id is a maximum, list_trials filters by exact study key')
   fi = svc.rpcs.get('SuggestTrials')
